@@ -340,7 +340,13 @@ EXTRA2 = {
     "C27": " Also decided: module globals that mirror arguments are assigned on every call; a dry run hands the position on; constructed refusals are raised.",
     "C12": " An argument tested with callable() is not called untested. The absolute eigenvalue cut-off of the matrix helpers is a constant not above float64 epsilon or scaled by the spectrum (never a bare machine epsilon).",
 }
-for _d in (EXTRA, EXTRA2):
+# session 4 (a separate dict: a key repeated inside one literal would silently replace the earlier text)
+EXTRA3 = {
+    "C26": " Also decided: patterns that select stored files escape their variable parts and match the whole file name.",
+    "C33": " Also decided: a sequence-like container with reflected operators opts out of NumPy's ufunc dispatch.",
+    "C18": " Also decided: the sqrt(2) of complex white noise is applied leaf by leaf under a test of that leaf.",
+}
+for _d in (EXTRA, EXTRA2, EXTRA3):
     for _k, _v in _d.items():
         if _k in CLAIMED:
             _t = CLAIMED[_k]
